@@ -76,23 +76,47 @@ func h265WriteView(t *Toks, pk interface{}, raw []byte) {
 	}
 }
 
-// h265Decode feeds payload to a fresh H265Packet and writes `ok view | err other | panic`.
-func h265Decode(t *Toks, donl bool, payload []byte) {
-	var tmp Toks
+// h265Held is what a caller holds after one H265Packet.Unmarshal: the outcome and the decoded packet
+// object (Packet()).  The accessors are read later (view), possibly after the SAME H265Packet has
+// parsed further payloads: a receiver is normally one H265Packet per stream, and a jitter buffer or
+// a reassembler keeps the decoded packets of a fragment train until the train is complete.
+type h265Held struct {
+	panicked, err bool
+	pkt           interface{}
+	raw           []byte
+}
+
+// h265Parse feeds payload to p (nil: a fresh H265Packet) and returns what the caller holds.
+func h265Parse(p *codecs.H265Packet, donl bool, payload []byte) h265Held {
+	h := h265Held{raw: payload}
 	var err error
-	if try(func() {
-		p := &codecs.H265Packet{}
-		p.WithDONL(donl)
+	h.panicked = try(func() {
+		if p == nil {
+			p = &codecs.H265Packet{}
+			p.WithDONL(donl)
+		}
 		_, err = p.Unmarshal(payload)
 		if err == nil {
-			h265WriteView(&tmp, p.Packet(), payload)
+			h.pkt = p.Packet()
 		}
-	}) {
+	})
+	h.err = err != nil
+	return h
+}
+
+// view writes `ok view | err other | panic` from what is held NOW.
+func (h h265Held) view(t *Toks) {
+	if h.panicked {
 		t.Panic()
 		return
 	}
-	if err != nil {
+	if h.err {
 		t.Err("other")
+		return
+	}
+	var tmp Toks
+	if try(func() { h265WriteView(&tmp, h.pkt, h.raw) }) {
+		t.Panic()
 		return
 	}
 	t.Ok().Tok(tmp.String())
@@ -420,6 +444,16 @@ func h265RtCase(c *Case, addDONL, skip bool, mtu int, frames [][]h265Framed) {
 			c.I.Nat(u.SC).Bytes(u.Unit)
 		}
 	}
+	// Receiving side: half of the cases parse every payload of the whole history with ONE H265Packet
+	// (the others with a fresh one per payload).  In both the decoded packets are kept and their
+	// accessors are read only after the last payload has been parsed.
+	var rx *codecs.H265Packet
+	if c.R.Bool() {
+		rx = &codecs.H265Packet{}
+		rx.WithDONL(addDONL)
+		c.Tag("rx=one-reused-H265Packet")
+	}
+	c.I.Bool(rx != nil)
 	p := &codecs.H265Payloader{AddDONL: addDONL, SkipAggregation: skip}
 	c.O.Nat(len(frames))
 	kinds := map[string]bool{}
@@ -436,6 +470,15 @@ func h265RtCase(c *Case, addDONL, skip bool, mtu int, frames [][]h265Framed) {
 		r.panicked = try(func() { r.out = p.Payload(uint16(mtu), buf) })
 		all = append(all, r)
 	}
+	held := make([][]h265Held, len(frames))
+	for k := range frames {
+		if all[k].panicked {
+			continue
+		}
+		for _, pl := range all[k].out {
+			held[k] = append(held[k], h265Parse(rx, addDONL, pl))
+		}
+	}
 	for k, f := range frames {
 		out := all[k].out
 		if all[k].panicked {
@@ -443,9 +486,9 @@ func h265RtCase(c *Case, addDONL, skip bool, mtu int, frames [][]h265Framed) {
 			continue
 		}
 		c.O.Ok().Nat(len(out))
-		for _, pl := range out {
+		for i, pl := range out {
 			c.O.Bytes(pl)
-			h265Decode(&c.O, addDONL, pl)
+			held[k][i].view(&c.O)
 			c.O.Bool(h265Head(pl))
 			if len(pl) >= 2 {
 				switch (pl[0] >> 1) & 63 {
@@ -513,6 +556,58 @@ func genH265Rt(x *Ctx) {
 					})
 				}
 			}
+		}
+	}
+	// grid 3: the largest MTUs.  Every size the payloader tracks (unit length + 2, the running size of an
+	// aggregation packet, fragment lengths) is bounded by the MTU, and two such sizes added together
+	// reach past 65535 only here: two or three consecutive units that each fit a packet of their own
+	// and together total about 65536 octets (40000 + 30000, 32765 + 32765 …), the neighbouring totals,
+	// and single units of MTU-1 … MTU+1.
+	type big struct {
+		mtu   int
+		sizes []int
+	}
+	bigs := []big{}
+	for _, mtu := range []int{32767, 50000, 65535} {
+		bigs = append(bigs,
+			big{mtu, []int{40000, 30000}}, big{mtu, []int{20000, 45000}}, big{mtu, []int{30000, 20000, 25000}},
+			big{mtu, []int{mtu - 5, 3}}, big{mtu, []int{mtu + 1}})
+		// totals around 65536: len(a)+2 + len(b)+4 = 65534 … 65537 (and the same with the DONL fields)
+		for _, t := range []int{65525, 65528, 65529, 65530, 65531, 65536} {
+			a := t / 2
+			if a > mtu-4 {
+				a = mtu - 4
+			}
+			if t-a <= mtu+1 {
+				bigs = append(bigs, big{mtu, []int{a, t - a}})
+			}
+		}
+		if x.Thorough() {
+			bigs = append(bigs, big{mtu, []int{45000, 20000}}, big{mtu, []int{25000, 25000, 25000}},
+				big{mtu, []int{mtu - 4}}, big{mtu, []int{mtu - 3}}, big{mtu, []int{mtu - 2}}, big{mtu, []int{mtu - 1}}, big{mtu, []int{mtu}},
+				big{mtu, []int{3, mtu - 9, 3}}, big{mtu, []int{mtu - 9, 3, 3}}, big{mtu, []int{65529 - 30000, 30000}}, big{mtu, []int{30000, 65532 - 30000}})
+		}
+	}
+	for _, cf := range cfgs {
+		for _, b := range bigs {
+			cf, b := cf, b
+			frag := false
+			for _, n := range b.sizes {
+				if n > b.mtu-3 {
+					frag = true
+				}
+			}
+			if cf[0] && frag {
+				continue // AddDONL and a fragmented unit: c14.rt.donlfu
+			}
+			x.Case(func(c *Case) {
+				f := []h265Framed{}
+				for _, n := range b.sizes {
+					f = append(f, h265Framed{c.R.Pick(3, 4), h265GenUnit(c.R, n, true)})
+				}
+				c.Tag("mtu>=32767")
+				h265RtCase(c, cf[0], cf[1], b.mtu, [][]h265Framed{f})
+			})
 		}
 	}
 	// random stream
@@ -616,7 +711,46 @@ func h265DecCase(c *Case, mode bool, d *h265Desc, cut int) {
 	if in == nil {
 		in = []byte{}
 	}
-	h265Decode(&c.O, mode, in)
+	// Half of the cases use a receiver with a history: the H265Packet has parsed one or two
+	// well-formed payloads of the same stream before the payload under test (`before`), and parses
+	// one more after it (`after`) while the caller still holds the packet decoded from the payload
+	// under test; its accessors are read at the end.  The neighbours are drawn with a preference for
+	// the form under test (a fragment among fragments, …).
+	var before, after [][]byte
+	var rx *codecs.H265Packet
+	if c.R.Bool() {
+		rx = &codecs.H265Packet{}
+		rx.WithDONL(mode)
+		kindOf := map[string]int{"single": 0, "ap": 1, "fu": 2, "paci": 3}[d.Kind]
+		neighbour := func() []byte {
+			k := kindOf
+			if c.R.Chance(1, 3) {
+				k = c.R.Intn(4)
+			}
+			n := h265GenDesc(c.R, k, mode)
+			if len(n.Payload) > 24 {
+				n.Payload = n.Payload[:24]
+			}
+			h265FixSemantics(c.R, n)
+			return n.encode()
+		}
+		for i, k := 0, c.R.Pick(0, 1, 1, 2); i < k; i++ {
+			before = append(before, neighbour())
+		}
+		if len(before) == 0 || c.R.Bool() {
+			after = append(after, neighbour())
+		}
+		c.Tag("rx=H265Packet-with-history")
+	}
+	c.I.BytesList(before).BytesList(after)
+	for _, b := range before {
+		h265Parse(rx, mode, b)
+	}
+	h := h265Parse(rx, mode, in)
+	for _, a := range after {
+		h265Parse(rx, mode, a)
+	}
+	h.view(&c.O)
 	c.O.Bool(h265Head(in))
 }
 
